@@ -21,9 +21,11 @@ Theorem C14_resume_keeps : forall (k : caps) (ops : list op), fresh_conns [] ops
 Proof. intros k ops F v I. unfold model_obs in I. rewrite (mon14_model_clean k ops F) in I. destruct I. Qed.
 
 (* with clean start nothing of the previous session survives in the broker: no subscription, no
-   in-flight message, no entry of the topic index (what a persistent store restores later is C21) *)
+   in-flight message, no entry of the topic index; and the discarded session is reported to the hooks -
+   every unacknowledged message through OnQosDropped, every subscription through OnUnsubscribed - so that
+   a persistent store forgets it and cannot restore it later (the restore itself is C21) *)
 Theorem C14_clean_drops : forall (k : caps) (ops : list op), fresh_conns [] ops = true ->
-  forall v, In v (mon14 (model_obs k ops)) -> v_tag v <> V14_clean.
+  forall v, In v (mon14 (model_obs k ops)) -> v_tag v <> V14_clean /\ v_tag v <> V14_clean_hooks.
 Proof. intros k ops F v I. unfold model_obs in I. rewrite (mon14_model_clean k ops F) in I. destruct I. Qed.
 
 (* the connection whose identifier is taken over receives DISCONNECT 0x8E (MQTT 5) and nothing else, is
